@@ -634,14 +634,26 @@ Section OPooled.
     rewrite <- !Lem_Multi.psum_gpairs, <- !Lem_Multi.train_pairs, !map_map. cbn [fst snd].
     f_equal; lra.
   Qed.
+
+  Lemma os_pooled_total_value :
+    Lem_Multi.pooled_total f l = Ok (Lem_Multi.psum g1 l).
+  Proof.
+    unfold Lem_Multi.pooled_total.
+    rewrite os_pooled_fold by (intros p Hp; apply Lem_Multi.in_pairs_seq; exact Hp).
+    cbn [rmap fst snd n0 ROps]. f_equal.
+    rewrite <- !Lem_Multi.psum_gpairs, <- !Lem_Multi.train_pairs, !map_map. cbn [fst snd].
+    lra.
+  Qed.
 End OPooled.
 
 Lemma os_order_multi_pooled eps cy nz mt m (l : list (@train R)) :
   spike_train_order_multi ROps eps cy false nz mt m l None
-  = Lem_Multi.pooled_multi (order_impl ROps eps cy mt m) l.
+  = if nz then Lem_Multi.pooled_multi (order_impl ROps eps cy mt m) l
+    else Lem_Multi.pooled_total (order_impl ROps eps cy mt m) l.
 Proof.
-  unfold spike_train_order_multi, Lem_Multi.pooled_multi. cbn [indices_or_all].
-  rewrite Lem_Multi.check_indices_seq. cbn [negb]. reflexivity.
+  unfold spike_train_order_multi, Lem_Multi.pooled_multi, Lem_Multi.pooled_total.
+  cbn [indices_or_all].
+  rewrite Lem_Multi.check_indices_seq. cbn [negb]. destruct nz; reflexivity.
 Qed.
 
 (* N trains, all valid on the same interval *)
@@ -659,41 +671,59 @@ Proof.
   exists s. split; [reflexivity | exact V].
 Qed.
 
-(* the two pooled totals: c_total = 2 * sum_{i<j} D_ij, m_total = (N-1) * sum_i n_i *)
+(* the two pooled totals: c_total = 2 * sum_{i<j} D_ij, m_total = (N-1) * sum_i n_i;
+   normalize = true gives their ratio, normalize = false gives c_total *)
 Theorem synfire_totals : forall eps cy nz mt m ts te (l : list (@train R)),
   (cy = false -> 0 < eps) -> os_common ts te l ->
   spike_train_order_multi ROps eps cy false nz mt m l None
-  = Ok (Lem_Multi.ratio
-          (2 * Lem_Multi.psum
-                 (fun a b => Lem_Multi.valOf (spike_directionality ROps eps cy false false mt m a b)) l,
-           (INR (length l) - 1) * sumF ROps (map os_nsp l))).
+  = Ok (if nz then
+          Lem_Multi.ratio
+            (2 * Lem_Multi.psum
+                   (fun a b => Lem_Multi.valOf (spike_directionality ROps eps cy false false mt m a b)) l,
+             (INR (length l) - 1) * sumF ROps (map os_nsp l))
+        else
+          2 * Lem_Multi.psum
+                (fun a b => Lem_Multi.valOf (spike_directionality ROps eps cy false false mt m a b)) l).
 Proof.
   intros eps cy nz mt m ts te l He Hc.
-  rewrite os_order_multi_pooled.
-  rewrite (os_pooled_value (order_impl ROps eps cy mt m)
-             (fun a b => 2 * os_D mt m a b) (fun a b => os_nsp a + os_nsp b) l).
-  - rewrite os_psum_scale, os_psum_add. f_equal. f_equal. f_equal. f_equal.
-    apply os_psum_ext. intros a b Ha Hb.
+  assert (Hf : forall a b, In a l -> In b l ->
+             order_impl ROps eps cy mt m a b = Ok (2 * os_D mt m a b, os_nsp a + os_nsp b)).
+  { intros a b Ha Hb.
     destruct (os_common_In ts te l a Hc Ha) as (sa & -> & Va).
     destruct (os_common_In ts te l b Hc Hb) as (sb & -> & Vb).
-    rewrite os_spike_directionality_value by assumption. reflexivity.
-  - intros a b Ha Hb.
+    apply os_order_impl_value; assumption. }
+  assert (HD : Lem_Multi.psum (os_D mt m) l
+               = Lem_Multi.psum
+                   (fun a b => Lem_Multi.valOf (spike_directionality ROps eps cy false false mt m a b)) l).
+  { apply os_psum_ext. intros a b Ha Hb.
     destruct (os_common_In ts te l a Hc Ha) as (sa & -> & Va).
     destruct (os_common_In ts te l b Hc Hb) as (sb & -> & Vb).
-    apply os_order_impl_value; assumption.
+    rewrite os_spike_directionality_value by assumption. reflexivity. }
+  rewrite os_order_multi_pooled. destruct nz.
+  - rewrite (os_pooled_value (order_impl ROps eps cy mt m)
+               (fun a b => 2 * os_D mt m a b) (fun a b => os_nsp a + os_nsp b) l Hf).
+    rewrite os_psum_scale, os_psum_add, HD. reflexivity.
+  - rewrite (os_pooled_total_value (order_impl ROps eps cy mt m)
+               (fun a b => 2 * os_D mt m a b) (fun a b => os_nsp a + os_nsp b) l Hf).
+    rewrite os_psum_scale, HD. reflexivity.
 Qed.
 
-(* 8. synfire relation *)
+(* 8. synfire relation: the normalised value is the ratio, the un-normalised value its numerator *)
 Theorem synfire_relation : forall eps cy nz mt m ts te (l : list (@train R)),
   (cy = false -> 0 < eps) -> os_common ts te l -> (2 <= length l)%nat ->
   0 < sumF ROps (map os_nsp l) ->
   spike_train_order_multi ROps eps cy false nz mt m l None
-  = Ok (2 * Lem_Multi.psum
-              (fun a b => Lem_Multi.valOf (spike_directionality ROps eps cy false false mt m a b)) l
-        / ((INR (length l) - 1) * sumF ROps (map os_nsp l))).
+  = Ok (if nz then
+          2 * Lem_Multi.psum
+                (fun a b => Lem_Multi.valOf (spike_directionality ROps eps cy false false mt m a b)) l
+          / ((INR (length l) - 1) * sumF ROps (map os_nsp l))
+        else
+          2 * Lem_Multi.psum
+                (fun a b => Lem_Multi.valOf (spike_directionality ROps eps cy false false mt m a b)) l).
 Proof.
   intros eps cy nz mt m ts te l He Hc HN Hpos.
   rewrite (synfire_totals eps cy nz mt m ts te l He Hc). f_equal.
+  destruct nz; [|reflexivity].
   unfold Lem_Multi.ratio. cbn [fst snd neqb n0 ndiv ROps].
   assert (HN' : 1 <= INR (length l) - 1).
   { apply le_INR in HN. cbn [INR] in HN. lra. }
